@@ -147,6 +147,10 @@ def _find_in_dirs_and_read(import_dirs):
                     return f.read(), None
             except IOError as e:
                 errors.append(str(e))
+            except UnicodeDecodeError as e:
+                # A file that exists but is not valid text is reported the same
+                # way as a file that cannot be read.
+                errors.append("{}: {}".format(full_name, e))
         return None, errors + ["import path " + ":".join(import_dirs)]
 
     return _find_and_read
